@@ -211,7 +211,7 @@ PROPS = {
                        "canonFmt, tallied per case as info_cn) the reconstructor emits nothing-or-one-space on a line, or 1-2 configured "
                        "breaks followed by whole indentation units. Exact models of TokenSpacing, EofNewline, settings conversion and "
                        "reconstruction are tied by the fmt stream (pre, out). The direct line-scanner oracle runs on every case.",
-        "assumptions": ["final counters are canonical: a theorem for the closed model (C08_format_full_checked) whenever every token is written by a first-phase solution (canonPremisesB, tallied per case as info_c08); not established for lines the wrapper cannot solve (F34)",
+        "assumptions": ["final counters are canonical: a theorem for the closed model (C08_format_full_checked) whenever every token is written by a first-phase solution (canonPremisesB' - the at-most-one-space clause is proved except at free positions: C08_pre_stage_spaces -, tallied per case as info_c08); not established for lines the wrapper cannot solve (F34)",
                         "continuation_indents*tab_width <= 255 for the unit law (saturation is known finding F6)"],
     },
     "C09": {
